@@ -34,7 +34,7 @@ def eval_facade(case):
     T, api, g, gor, sal = f["T"], f["api"], f["g"], f["gor"], f["sal"]
     fl = Fluid(T, api, g, gor, salinity=sal)
     pb = float(oil.pressure_bubblepoint_Standing(T, api, g, gor))
-    p = np.array([15.0, 0.3 * pb, 0.9 * pb, pb, 1.2 * pb, 2.0 * pb, 9000.0])
+    p = np.array([1.0, 5.0, 14.7, 15.0, 0.3 * pb, 0.9 * pb, pb, 1.2 * pb, 2.0 * pb, 9000.0, 14000.0, 19000.0])
     tpc, ppc = case["pc"]
     pairs = {
         "water_FVF": (lambda: fl.water_FVF(p), [water.b_water_McCain(T, q) for q in p]),
@@ -53,7 +53,7 @@ def eval_facade(case):
                           f"with the object's T={T}, api={api}, gravity={g}, GOR={gor}, salinity={sal} gives "
                           f"{np.asarray(want).tolist()}", case=case, tol=REL))
     # the same methods on a shuffled pressure array with repeats: values belong to their own positions
-    order = [3, 0, 5, 0, 2, 6, 2]
+    order = [6, 3, 8, 3, 5, 9, 5, 0, 11]
     p_sh = p[order]
     for name, fn, want in (("gas_FVF", lambda q: fl.gas_FVF(q, tpc, ppc), [gas.b_factor_DAK(T, x, tpc, ppc) for x in p_sh]),
                            ("gas_viscosity", lambda q: fl.gas_viscosity(q, tpc, ppc), [gas.viscosity_Sutton(T, x, tpc, ppc, g) for x in p_sh]),
@@ -73,7 +73,10 @@ def eval_facade(case):
     # calls above); every method must follow the object's *current* attributes
     for attr, new in (("temperature", T + 85.0), ("api_gravity", api + 6.0), ("gas_specific_gravity", g + 0.11),
                       ("solution_gor_initial", gor * 1.4), ("salinity", sal + 4.0)):
-        setattr(fl, attr, new)
+        try:
+            setattr(fl, attr, new)
+        except (AttributeError, TypeError):  # an immutable (frozen) Fluid cannot have a reassignment history
+            break
         T2, api2, g2, gor2, sal2 = (fl.temperature, fl.api_gravity, fl.gas_specific_gravity,
                                     fl.solution_gor_initial, fl.salinity)
         wants = {
@@ -114,9 +117,13 @@ def eval_table(case):
     build_pvt_gas(gas_values(case), other, maximum_pressure=pmax)
     build_pvt_gas(gas_values(dict(case, g=g + 0.1)), dry, maximum_pressure=pmax)
     build_pvt_gas(gas_values(dict(case, cont=[cont[0], cont[1] + 0.01, cont[2]])), dry, maximum_pressure=pmax)
+    build_pvt_gas(gas_values(dict(case, cont=[cont[0] + 0.01, cont[1], cont[2]])), dry, maximum_pressure=pmax)
+    build_pvt_gas(gas_values(dict(case, cont=[cont[0], cont[1], cont[2] + 0.01])), dry, maximum_pressure=pmax)
+    build_pvt_gas(gas_values(dict(case, T=T + 15.0)), dry, maximum_pressure=pmax)
+    build_pvt_gas(gas_values(case), dry, maximum_pressure=pmax + 30)
     vals = gas_values(case)
     snap = dict(vals)
-    tab = build_pvt_gas(vals, dry, maximum_pressure=pmax)
+    tab = build_pvt_gas(vals, dry) if case.get("default_pmax") else build_pvt_gas(vals, dry, maximum_pressure=pmax)
     viol = []
     if vals != snap:
         viol.append(V("table/caller-dict-modified", "build_pvt_gas modified its gas_values argument", case=case))
@@ -130,6 +137,11 @@ def eval_table(case):
                       f"{p[-2:].tolist()}, {len(p)} rows; expected 10, 20, ... < {pmax} ({len(want_p)} rows)", case=case,
                       observed=p[-3:].tolist(), expected=want_p[-3:].tolist()))
         return {"violations": viol, "evals": 1, "outcome": "grid"}
+    stride = case.get("stride", 1)
+    idx = np.unique(np.concatenate([np.arange(0, len(p), stride), np.arange(min(12, len(p))), np.arange(max(0, len(p) - 12), len(p)),
+                                    (np.arange(1, 40) * 0.6180339887498949 % 1 * len(p)).astype(int)]))
+    tab = tab.iloc[idx].reset_index(drop=True)
+    p = p[idx]
     cols = {
         "z-factor": [gas.z_factor_DAK(T, q, tpc, ppc) for q in p],
         "Density": [gas.density_DAK(T, q, tpc, ppc, g) for q in p],
@@ -180,7 +192,7 @@ def eval_sutton(case):
             viol.append(V("sutton/hydrocarbon-only", f"with no contaminants the pseudocritical point is "
                           f"({base[0] + 459.67!r} R, {base[1]!r} psia); hydrocarbon-only correlation gives ({t!r}, {p!r})",
                           case=case, observed=list(base), expected=[t - 459.67, p]))
-    for bad in ("oil", "Dry Gas", "", "wet"):
+    for bad in ("oil", "Dry Gas", "", "wet", "dry gas ", " dry gas", "dry  gas", "dry-gas", "dry_gas", "drygas", "dry gas\n", "wet gas."):
         try:
             gas.pseudocritical_point_Sutton(g, nh, bad)
             viol.append(V("sutton/unknown-type-accepted", f"fluid type {bad!r} was accepted", case=case))
@@ -230,10 +242,17 @@ def cases(tier, seed):
     pmaxs = [95.0, 100.0, 100.5, 20.25, 105.0, 600.0, 300] + ([20.0, 20.5, 2340.75, 3000.0] if tier == "thorough" else [])
     for g, cont, dry, pmax in itertools.product(gs, conts, ["dry gas", "wet gas"], pmaxs):
         out.append({"kind": "table", "g": g, "T": 210.4 if g < 0.7 else 330.75, "cont": cont, "dry": dry, "pmax": pmax})
+    # full-size tables (the default maximum of 14 000 psia, once left to the default argument): a stride of rows in
+    # quick, every row in thorough
+    for g, cont, dry, dflt in [(0.65, [0.03, 0.012, 0.018], "dry gas", True), (0.9, [0.0, 0.05, 0.0], "wet gas", False)]:
+        out.append({"kind": "table", "g": g, "T": 247.3, "cont": cont, "dry": dry, "pmax": 14000, "default_pmax": dflt,
+                    "stride": 1 if tier == "thorough" else 37})
     for g, cont, dry in itertools.product([0.57, 0.65, 0.8, 1.0, 1.2], conts, ["dry gas", "wet gas"]):
         out.append({"kind": "sutton", "g": g, "cont": cont, "dry": dry})
     out.append({"kind": "purity", "comps": [{"g": 0.65, "T": 200.0, "cont": [0.0, 0.0, 0.0]},
                                            {"g": 0.65, "T": 200.0, "cont": [0.02, 0.0, 0.0]},
+                                           {"g": 0.65, "T": 200.0, "cont": [0.0, 0.02, 0.0]},
+                                           {"g": 0.65, "T": 200.0, "cont": [0.0, 0.0, 0.02]},
                                            {"g": 0.85, "T": 200.0, "cont": [0.0, 0.0, 0.0]},
                                            {"g": 0.65, "T": 300.0, "cont": [0.0, 0.0, 0.0]}]})
     return out
